@@ -111,35 +111,39 @@ def seed_names(kind):
     def seed(w):
         s = core.sdn()
         n = s.Netlist(name="n")
+        def ident(el, v):
+            el["EDIF.identifier"] = v
+            return el
+
         if kind == "L":
-            n.create_library(name="a")
+            ident(n.create_library(name="a"), "a")
             n.create_library()
             w.add(n)
-            w.add(s.Library(name="b"))
+            w.add(ident(s.Library(name="b"), "b"))
             return
         lib = n.create_library(name="l")
         if kind == "D":
-            lib.create_definition(name="a")
+            ident(lib.create_definition(name="a"), "a")
             lib.create_definition()
             w.add(n)
-            w.add(s.Definition(name="b"))
+            w.add(ident(s.Definition(name="b"), "b"))
             return
         d = lib.create_definition(name="d")
         if kind == "P":
-            d.create_port(name="a")
+            ident(d.create_port(name="a"), "a")
             d.create_port()
             w.add(n)
-            w.add(s.Port(name="b"))
+            w.add(ident(s.Port(name="b"), "b"))
         elif kind == "C":
-            d.create_cable(name="a")
+            ident(d.create_cable(name="a"), "a")
             d.create_cable()
             w.add(n)
-            w.add(s.Cable(name="b"))
+            w.add(ident(s.Cable(name="b"), "b"))
         elif kind == "X":
-            d.create_child(name="a")
+            ident(d.create_child(name="a"), "a")
             d.create_child()
             w.add(n)
-            w.add(s.Instance(name="b"))
+            w.add(ident(s.Instance(name="b"), "b"))
 
     seed.__name__ = "seed_names_" + kind
     return seed
@@ -173,4 +177,27 @@ def seed_c02_mix(w):
     u = top.create_child(name="u", reference=d0)
     c.wires[0].connect_pin(u.pins[p.pins[0]])
     n.top_instance = d0
+    w.add(n)
+
+
+def seed_repoint(w):
+    """an instance connected on both ports of a 2-port definition; shape-compatible targets for the
+    shapes reachable by one pin/port edit."""
+    s = core.sdn()
+    n = s.Netlist(name="n")
+    lib = n.create_library(name="l")
+    d0 = lib.create_definition(name="d0")
+    a = d0.create_port(name="A", pins=1)
+    b = d0.create_port(name="B", pins=1)
+    d1 = lib.create_definition(name="d1")
+    d1.create_port(name="A", pins=2)
+    d1.create_port(name="B", pins=1)
+    d2 = lib.create_definition(name="d2")
+    d2.create_port(name="A", pins=1)
+    d2.create_port(name="B", pins=1)
+    top = lib.create_definition(name="top")
+    c = top.create_cable(name="c", wires=3)
+    u = top.create_child(name="u", reference=d0)
+    c.wires[0].connect_pin(u.pins[a.pins[0]])
+    c.wires[1].connect_pin(u.pins[b.pins[0]])
     w.add(n)
